@@ -210,6 +210,8 @@ def spine_a(ctx, active, n_units, n_values, n_fuzz):
         preps.append(A.prepare(ctx, i, spec, CODEC, n_values, n_fuzz, rng, extra_inputs=extra))
         if p2 is not None:
             preps.append(p2)
+    # structured corner: same-named DEFAULT members in sibling inline SEQUENCEs / CHOICE alternatives
+    preps.append(A.prepare(ctx, 'tw', T.Gen(rng, avoid=avoid, features=feats).twins_spec(), CODEC, n_values + 3, n_fuzz, rng))
     rej = []
     for name, spec in unsupported_specs(rng):
         if UNSUPPORTED_REGION.get(name) in active:
